@@ -28,12 +28,13 @@ MC_HeadersMore == MC_HeadersCore \cup
 \* bodies: repeated keys, ProxyCommand none after a command, %h in HostName and in keys obtained before it
 MC_BodiesCore == {<<L("port", <<"1">>)>>, <<L("port", <<"2">>), L("port", <<"3">>)>>,
                   <<L("hostname", <<"%h", ".", "x">>)>>,
-                  <<L("identityfile", <<"%h", "k">>)>>,
-                  <<L("identityfile", <<"j">>), L("identityfile", <<"%h", "k">>)>>,
+                  <<L("identityfile", <<"j">>), L("identityfile", <<"%h", "k">>), L("identityfile", <<"j">>)>>,   \* repeat inside a block
+                  <<L("identityfile", <<"j">>), L("identityfile", <<"j">>)>>,
                   <<L("proxycommand", <<"c", "%h">>), NoneLine>>,
                   <<NoneLine, L("proxycommand", <<"d">>)>>}
 MC_BodiesMore == MC_BodiesCore \cup
-                 {<<L("user", <<"u">>), L("controlpath", <<"%n", "%r", "%u", "%p">>)>>,
+                 {<<L("identityfile", <<"%h", "k">>)>>,
+                  <<L("user", <<"u">>), L("controlpath", <<"%n", "%r", "%u", "%p">>)>>,
                   <<L("proxycommand", <<"~", "%p", "%r">>)>>,
                   <<L("hostname", <<"b">>), L("user", <<"m", "x">>)>>,
                   <<L("identityfile", <<"~", "%u">>), L("compression", <<"y">>)>>}
